@@ -141,21 +141,32 @@ fn l_roundtrip_enc_dec() {
 // per-block calls are recorded, the multi-block calls must ask the same questions block after block, in order.
 // Each block goes through exactly once and in order, b2b inputs untouched, guard blocks around the output
 // untouched, state unchanged.
+/// block equality on fixed-size references.  (Comparing through `&[u8]` slices taken from element >= 1 of a
+/// `[[u8; 16]; n]` made Kani 0.68 report `x[1] = v; x[1] != v`; see report.)
+fn eq16b(a: &[u8; 16], b: &[u8; 16]) -> bool {
+    let mut ok = true;
+    let mut i = 0;
+    while i < 16 {
+        ok &= a[i] == b[i];
+        i += 1;
+    }
+    ok
+}
 macro_rules! multi_block_enc {
     ($name:ident, $n:expr) => {
         #[kani::proof]
         #[kani::stub(belt_block_raw, trb::block)]
-        #[kani::unwind(34)]
+        #[kani::unwind(65)]
         fn $name() {
             let c = any_belt();
             let before = c.key;
             let inp: [[u8; 16]; $n] = kani::any();
-            let mut single = [[0u8; 16]; $n];
+            let mut single = [Array([0u8; 16]); $n]; // (not [[u8; 16]; n]: see report, spurious Kani failure on element 1)
             let mut i = 0;
             while i < $n {
                 let mut b = Array(inp[i]);
                 cipher::BlockCipherEncrypt::encrypt_block(&c, &mut b);
-                single[i] = b.0;
+                single[i] = b;
                 i += 1;
             }
             let mut blocks = [Array([0u8; 16]); $n];
@@ -166,7 +177,7 @@ macro_rules! multi_block_enc {
             cipher::BlockCipherEncrypt::encrypt_blocks(&c, &mut blocks);
             assert!(trb::exhausted());
             let mut i = 0;
-            while i < $n { assert!(eq_bytes(&blocks[i].0, &single[i])); i += 1; }
+            while i < $n { assert!(eq16b(&blocks[i].0, &single[i].0)); i += 1; }
             let mut src = [Array([0u8; 16]); $n];
             let mut i = 0;
             while i < $n { src[i] = Array(inp[i]); i += 1; }
@@ -175,9 +186,9 @@ macro_rules! multi_block_enc {
             trb::replay(tr::FORWARD);
             cipher::BlockCipherEncrypt::encrypt_blocks_b2b(&c, &src, &mut dst[1..$n + 1]).unwrap();
             assert!(trb::exhausted());
-            assert!(eq_bytes(&dst[0].0, &g) && eq_bytes(&dst[$n + 1].0, &g));
+            assert!(eq16b(&dst[0].0, &g) && eq16b(&dst[$n + 1].0, &g));
             let mut i = 0;
-            while i < $n { assert!(eq_bytes(&dst[i + 1].0, &single[i]) && eq_bytes(&src[i].0, &inp[i])); i += 1; }
+            while i < $n { assert!(eq16b(&dst[i + 1].0, &single[i].0) && eq16b(&src[i].0, &inp[i])); i += 1; }
             assert!(eq8(&before, &c.key));
         }
     };
@@ -186,6 +197,8 @@ macro_rules! multi_block_enc {
 multi_block_enc!(m_enc_blocks_0, 0);
 // @ob name=m_enc_blocks_1 props=C04,C15 kind=bounded bound="n = 1 block" fn=belt_block::BeltBlock::encrypt_with_backend,belt_block::BeltBlock::encrypt_block uses=c_belt_block_raw timeout=300
 multi_block_enc!(m_enc_blocks_1, 1);
+// @ob name=m_enc_blocks_2 props=C04,C15 kind=bounded bound="n = 2 blocks" fn=belt_block::BeltBlock::encrypt_with_backend,belt_block::BeltBlock::encrypt_block uses=c_belt_block_raw timeout=300
+multi_block_enc!(m_enc_blocks_2, 2);
 // @ob name=m_enc_blocks_3 props=C04,C15 kind=bounded bound="n = 3 blocks" fn=belt_block::BeltBlock::encrypt_with_backend,belt_block::BeltBlock::encrypt_block uses=c_belt_block_raw timeout=300
 multi_block_enc!(m_enc_blocks_3, 3);
 
@@ -202,12 +215,12 @@ macro_rules! multi_block_dec {
             let c = any_belt();
             let before = c.key;
             let inp: [[u8; 16]; $n] = kani::any();
-            let mut single = [[0u8; 16]; $n];
+            let mut single = [Array([0u8; 16]); $n]; // (not [[u8; 16]; n]: see report, spurious Kani failure on element 1)
             let mut i = 0;
             while i < $n {
                 let mut b = Array(inp[i]);
                 cipher::BlockCipherDecrypt::decrypt_block(&c, &mut b);
-                single[i] = b.0;
+                single[i] = b;
                 i += 1;
             }
             let mut blocks = [Array([0u8; 16]); $n];
@@ -218,7 +231,7 @@ macro_rules! multi_block_dec {
             cipher::BlockCipherDecrypt::decrypt_blocks(&c, &mut blocks);
             assert!(tr::exhausted());
             let mut i = 0;
-            while i < $n { assert!(eq_bytes(&blocks[i].0, &single[i])); i += 1; }
+            while i < $n { assert!(eq16b(&blocks[i].0, &single[i].0)); i += 1; }
             let mut src = [Array([0u8; 16]); $n];
             let mut i = 0;
             while i < $n { src[i] = Array(inp[i]); i += 1; }
@@ -227,9 +240,9 @@ macro_rules! multi_block_dec {
             tr::replay(tr::FORWARD);
             cipher::BlockCipherDecrypt::decrypt_blocks_b2b(&c, &src, &mut dst[1..$n + 1]).unwrap();
             assert!(tr::exhausted());
-            assert!(eq_bytes(&dst[0].0, &g) && eq_bytes(&dst[$n + 1].0, &g));
+            assert!(eq16b(&dst[0].0, &g) && eq16b(&dst[$n + 1].0, &g));
             let mut i = 0;
-            while i < $n { assert!(eq_bytes(&dst[i + 1].0, &single[i]) && eq_bytes(&src[i].0, &inp[i])); i += 1; }
+            while i < $n { assert!(eq16b(&dst[i + 1].0, &single[i].0) && eq16b(&src[i].0, &inp[i])); i += 1; }
             assert!(eq8(&before, &c.key));
         }
     };
@@ -238,6 +251,8 @@ macro_rules! multi_block_dec {
 multi_block_dec!(m_dec_blocks_0, 0);
 // @ob name=m_dec_blocks_1 props=C04,C15 kind=bounded bound="n = 1 block" fn=belt_block::BeltBlock::decrypt_with_backend,belt_block::BeltBlock::decrypt_block uses=c_g5,c_g13,c_g21 timeout=600
 multi_block_dec!(m_dec_blocks_1, 1);
+// @ob name=m_dec_blocks_2 props=C04,C15 kind=bounded bound="n = 2 blocks" fn=belt_block::BeltBlock::decrypt_with_backend,belt_block::BeltBlock::decrypt_block uses=c_g5,c_g13,c_g21 timeout=900
+multi_block_dec!(m_dec_blocks_2, 2);
 // @ob name=m_dec_blocks_3 props=C04,C15 tier=thorough kind=bounded bound="n = 3 blocks" fn=belt_block::BeltBlock::decrypt_with_backend,belt_block::BeltBlock::decrypt_block uses=c_g5,c_g13,c_g21 timeout=3000
 multi_block_dec!(m_dec_blocks_3, 3);
 
